@@ -96,6 +96,13 @@ func fromModel(b map[string]any, idx int, salt int64) *caseSpec {
 		cs.Init = m
 	}
 	cs.Max = asInt(b["max"])
+	cs.Unit = 3000
+	if mf := asInt(b["maxfile"]); mf > 0 || b["maxfile"] != nil {
+		if mf < Unlimited {
+			cs.MaxFile = fmt.Sprintf("u:%d", mf)
+		}
+	}
+	cs.StageMode = []string{"", "neighboring", "internal"}[idx%3]
 	ro, _ := b["ro"].(bool)
 	if ro {
 		cs.Alpha = true
@@ -187,7 +194,53 @@ func protoCases(n int, salt int64) []*caseSpec {
 	return out
 }
 
-var transferKinds = []string{"exact", "exact", "exact", "corrupt", "truncated", "absent", "abort", "abort0"}
+var transferKinds = []string{"exact", "exact", "split", "split", "corrupt", "truncated", "absent", "abort", "abort0"}
+
+// limitCases: the staging file size limit against files that do and do not fit,
+// for transfers onto an empty base ("new": one data operation carries the whole
+// file), onto a base sharing a prefix ("swap": block operations then data) and
+// for from-root copies ("copy"), with whole and finely split operations, under
+// each staging mode.
+func limitCases(salt int64) []*caseSpec {
+	var out []*caseSpec
+	forms := []string{"", "eq:c2", "m1:c2", "half:c2", "tiny", "blk", "inblk"}
+	stageModes := []string{"", "neighboring", "internal"}
+	fileModes := []uint32{0, 0o644, 0o640}
+	n := 0
+	for _, sm := range stageModes {
+		for _, form := range forms {
+			for _, src := range []string{"new", "swap", "copy"} {
+				for _, kind := range []string{"exact", "split"} {
+					if src == "copy" && kind == "split" {
+						continue
+					}
+					n++
+					cs := &caseSpec{Init: map[string]string{"a": "c1", "b": "c2"}, Max: Unlimited, Mode: "tws", Src: "limit", Salt: salt,
+						MaxFile: form, StageMode: sm, FileMode: fileModes[n%3], DirMode: []uint32{0, 0o755}[n%2]}
+					var req reqSpec
+					var chg chgSpec
+					switch src {
+					case "new":
+						req = reqSpec{Path: []string{"n"}, C: "c2"}
+						delete(cs.Init, "b") // no copy source
+						chg = chgSpec{Path: []string{"n"}, New: "c2"}
+					case "swap":
+						req = reqSpec{Path: []string{"a"}, C: "c2"}
+						delete(cs.Init, "b")
+						chg = chgSpec{Path: []string{"a"}, Old: "c1", New: "c2"}
+					case "copy":
+						req = reqSpec{Path: []string{"n"}, C: "c2"}
+						chg = chgSpec{Path: []string{"n"}, New: "c2"}
+					}
+					cs.Ops = []opSpec{{Op: "Scan"}, {Op: "Stage", Req: []reqSpec{req}}, {Op: "Recv", Kinds: []string{kind}},
+						{Op: "Trans", Chg: []chgSpec{chg}}}
+					out = append(out, cs)
+				}
+			}
+		}
+	}
+	return out
+}
 
 // randomCase builds one seeded random script.
 func randomCase(r *rand.Rand, salt int64) *caseSpec {
@@ -232,6 +285,17 @@ func randomCase(r *rand.Rand, salt int64) *caseSpec {
 	default:
 		cs.Alpha, cs.Mode = false, "tws"
 	}
+	switch r.Intn(6) { // staging file size limit relative to one of the contents
+	case 0:
+		cs.MaxFile = "eq:" + contents[r.Intn(4)]
+	case 1:
+		cs.MaxFile = "m1:" + contents[r.Intn(4)]
+	case 2:
+		cs.MaxFile = []string{"half:c1", "half:c3", "tiny", "blk", "inblk"}[r.Intn(5)]
+	}
+	cs.StageMode = []string{"", "", "neighboring", "internal"}[r.Intn(4)]
+	cs.FileMode = []uint32{0, 0, 0o644, 0o640}[r.Intn(4)]
+	cs.DirMode = []uint32{0, 0, 0o755}[r.Intn(3)]
 	existing := func() []string {
 		var ps []string
 		for p := range sim {
@@ -287,7 +351,7 @@ func randomCase(r *rand.Rand, salt int64) *caseSpec {
 		}
 		// the plan of this cycle
 		type planned struct {
-			path, content string
+			path, content  string
 			swap, inNewDir bool
 		}
 		var plan []planned
@@ -432,6 +496,11 @@ func runStaging(c *vlib.Ctx) error {
 		emit(cs)
 	}
 	c.SetExtra("protocol_sequences", len(pc))
+	lc := limitCases(c.Seed)
+	for _, cs := range lc {
+		emit(cs)
+	}
+	c.SetExtra("size_limit_cases", len(lc))
 	for i := 0; i < nrand; i++ {
 		emit(randomCase(c.Rand, c.Seed*100000+int64(i)))
 	}
